@@ -410,6 +410,32 @@ func genCase(r compkit.Rand) *Case {
 			c.Card = m
 		}
 	}
+	if r.Chance(0.004) {
+		// A hot key: one or two keys combined tens of thousands of times into a
+		// table that never spills (per-slot bookkeeping must not wear out).
+		c.Card = r.Pick(1, 2)
+		c.Discard, c.Damage = false, false
+		if c.Level != "frame" {
+			c.Target = 100000
+		}
+		n := r.Pick(66000, 70000, 140000)
+		per := r.Pick(1000, 8000, 8192)
+		for n > 0 {
+			c.Producers = append(c.Producers, nil)
+			p := len(c.Producers) - 1
+			for k := 0; k < 6 && n > 0; k++ {
+				c.Producers[p] = append(c.Producers[p], per)
+				n -= per
+			}
+			if len(c.Producers) == 4 {
+				for n > 0 {
+					c.Producers[3] = append(c.Producers[3], per)
+					n -= per
+				}
+			}
+		}
+		return c
+	}
 	np := 1 + r.Intn(4)
 	for p := 0; p < np; p++ {
 		var b []int
